@@ -7,6 +7,7 @@ import (
 	"bytes"
 	"encoding/json"
 	"fmt"
+	"net/netip"
 	"os"
 	"os/exec"
 	"strings"
@@ -17,18 +18,23 @@ import (
 )
 
 type Cfg struct {
-	Len     int    `json:"path_length"` // number of routers between source and destination
-	Proto   string `json:"proto"`
-	Method  string `json:"method"`
-	Port    string `json:"port"`   // open | closed | nosack
-	Silent  int    `json:"silent"` // index (1-based) of a router that generates no ICMP, 0 = none
-	First   int    `json:"first_ttl"`
-	Concur  int    `json:"concurrent"` // invocations at once (same topology)
-	E2e     int    `json:"e2e"`
+	Len    int    `json:"path_length"` // number of routers between source and destination
+	Proto  string `json:"proto"`
+	Method string `json:"method"`
+	Port   string `json:"port"`   // open | closed | nosack
+	Silent int    `json:"silent"` // index (1-based) of a router that generates no ICMP, 0 = none
+	First  int    `json:"first_ttl"`
+	Concur int    `json:"concurrent"` // invocations at once (same topology)
+	E2e    int    `json:"e2e"`
+	V6     bool   `json:"ipv6"`
 }
 
 func (c Cfg) class() string {
-	return fmt.Sprintf("len%d/%s-%s/port-%s/silent-%d/first-%d/x%d", c.Len, c.Proto, c.Method, c.Port, c.Silent, c.First, c.Concur)
+	fam := ""
+	if c.V6 {
+		fam = "/ipv6"
+	}
+	return fmt.Sprintf("len%d/%s-%s/port-%s/silent-%d/first-%d/x%d%s", c.Len, c.Proto, c.Method, c.Port, c.Silent, c.First, c.Concur, fam)
 }
 
 func configs(tier string) []Cfg {
@@ -60,6 +66,13 @@ func configs(tier string) []Cfg {
 					out = append(out, Cfg{Len: l, Proto: v.p, Method: v.m, Port: "open", Silent: s, First: 1, Concur: 1})
 				}
 				out = append(out, Cfg{Len: l, Proto: v.p, Method: v.m, Port: "open", First: 2, Concur: 1})
+			}
+		}
+		// IPv6 (ICMPv6 and UDP are the IPv6-capable variants)
+		for _, v := range []pm{{"icmp", ""}, {"udp", ""}} {
+			out = append(out, Cfg{Len: l, Proto: v.p, Method: v.m, Port: "closed", First: 1, Concur: 1, E2e: 2, V6: true})
+			if tier == "thorough" {
+				out = append(out, Cfg{Len: l, Proto: v.p, Method: v.m, Port: "closed", Silent: 1, First: 1, Concur: 1, V6: true})
 			}
 		}
 		out = append(out, Cfg{Len: l, Proto: "mix", Port: "open", First: 1, Concur: 3})
@@ -122,6 +135,12 @@ func build(prefix string, n int, cfg Cfg) (*lab, error) {
 		l.exec(ns, "sysctl", "-qw", "net.ipv4.icmp_ratemask=0")
 		l.exec(ns, "sysctl", "-qw", "net.ipv4.ip_forward=1")
 		l.exec(ns, "sysctl", "-qw", "net.ipv4.conf.all.rp_filter=0")
+		l.exec(ns, "sysctl", "-qw", "net.ipv6.conf.all.forwarding=1")
+		l.exec(ns, "sysctl", "-qw", "net.ipv6.icmp.ratelimit=0")
+		// no duplicate address detection: link-local addresses would stay tentative for over a second and neighbour
+		// discovery (hence the first run in a fresh lab) would fail
+		l.exec(ns, "sysctl", "-qw", "net.ipv6.conf.default.accept_dad=0")
+		l.exec(ns, "sysctl", "-qw", "net.ipv6.conf.all.accept_dad=0")
 	}
 	for i := 0; i <= n; i++ {
 		a, b := names[i], names[i+1]
@@ -134,6 +153,8 @@ func build(prefix string, n int, cfg Cfg) (*lab, error) {
 		l.exec(b, "ip", "addr", "add", fmt.Sprintf("10.77.%d.2/24", i), "dev", vb)
 		l.exec(a, "ip", "link", "set", va, "up")
 		l.exec(b, "ip", "link", "set", vb, "up")
+		l.exec(a, "ip", "-6", "addr", "add", fmt.Sprintf("fd77:%x::1/64", i), "dev", va, "nodad")
+		l.exec(b, "ip", "-6", "addr", "add", fmt.Sprintf("fd77:%x::2/64", i), "dev", vb, "nodad")
 	}
 	// routes: everybody forwards towards dst via the right neighbour, towards src via the left neighbour
 	for i := 0; i <= n; i++ {
@@ -141,11 +162,13 @@ func build(prefix string, n int, cfg Cfg) (*lab, error) {
 			l.destroy()
 			return nil, err
 		}
+		l.exec(names[i], "ip", "-6", "route", "add", "default", "via", fmt.Sprintf("fd77:%x::2", i))
 	}
 	for i := 1; i <= n+1; i++ {
 		// back towards the source's subnet (and the subnets to the left)
 		for j := 0; j < i-1; j++ {
 			l.exec(names[i], "ip", "route", "add", fmt.Sprintf("10.77.%d.0/24", j), "via", fmt.Sprintf("10.77.%d.1", i-1))
+			l.exec(names[i], "ip", "-6", "route", "add", fmt.Sprintf("fd77:%x::/64", j), "via", fmt.Sprintf("fd77:%x::1", i-1))
 		}
 	}
 	dst := names[n+1]
@@ -163,6 +186,9 @@ func build(prefix string, n int, cfg Cfg) (*lab, error) {
 			l.destroy()
 			return nil, err
 		}
+		l.exec(r, "nft", "add", "table", "ip6", "f6")
+		l.exec(r, "nft", "add", "chain", "ip6", "f6", "out", "{ type filter hook output priority 0 ; }")
+		l.exec(r, "nft", "add", "rule", "ip6", "f6", "out", "icmpv6", "type", "time-exceeded", "drop")
 	}
 	// a TCP listener on port 8080 of the destination (port 8081 stays closed)
 	c := exec.Command("ip", "netns", "exec", dst, "python3", "-c", "import socket,time\ns=socket.socket();s.setsockopt(socket.SOL_SOCKET,socket.SO_REUSEADDR,1);s.bind(('0.0.0.0',8080));s.listen(64)\nconns=[]\nwhile True:\n c,_=s.accept();conns.append(c)\n")
@@ -214,6 +240,9 @@ type doc struct {
 // invoke runs one traceroute from the source namespace and returns (json document or nil, stderr, exit error).
 func invoke(l *lab, c Cfg, proto, method string) (*doc, string, error) {
 	dstAddr := fmt.Sprintf("10.77.%d.2", l.n)
+	if c.V6 {
+		dstAddr = fmt.Sprintf("fd77:%x::2", l.n)
+	}
 	port := "8080"
 	if c.Port == "closed" {
 		port = "8081"
@@ -226,6 +255,9 @@ func invoke(l *lab, c Cfg, proto, method string) (*doc, string, error) {
 		args = []string{"netns", "exec", src, os.Getenv("VERIF_C13_CLI"), "-P", proto, "-p", port, "-q", "1", "-Q", fmt.Sprint(c.E2e), "-m", "8", "--timeout", "1000"}
 		if proto == "tcp" {
 			args = append(args, "--tcp-method", method)
+		}
+		if c.V6 {
+			args = append(args, "--ipv6")
 		}
 		args = append(args, dstAddr)
 	}
@@ -259,14 +291,20 @@ func expect(l *lab, c Cfg, proto, method string, d *doc, stderr string, err erro
 	}
 	hops := d.Traceroute.Runs[0].Hops
 	var want []string
+	addr := func(link int) string {
+		if c.V6 {
+			return netip.MustParseAddr(fmt.Sprintf("fd77:%x::2", link)).String()
+		}
+		return fmt.Sprintf("10.77.%d.2", link)
+	}
 	for k := 1; k <= l.n; k++ {
 		if k == c.Silent {
 			want = append(want, "")
 		} else {
-			want = append(want, fmt.Sprintf("10.77.%d.2", k-1))
+			want = append(want, addr(k-1))
 		}
 	}
-	want = append(want, fmt.Sprintf("10.77.%d.2", l.n))
+	want = append(want, addr(l.n))
 	want = want[c.First-1:]
 	var got []string
 	for i, h := range hops {
